@@ -140,6 +140,11 @@ func (s *sys) send(a *atom, p int) (int, string, string) {
 	}
 	resp, err := s.srv.GetApp().Test(hr, -1)
 	if err != nil {
+		if err.Error() == "body size exceeds the given limit" {
+			// fasthttp answers 413 through fiber's server error handler and closes the connection;
+			// App.Test surfaces ServeConn's error instead of that response
+			return 413, "", ""
+		}
 		return -1, err.Error(), ""
 	}
 	b, _ := io.ReadAll(io.LimitReader(resp.Body, 400))
